@@ -80,6 +80,12 @@ func (k *kitImpl) Cmd(key string, val int) error {
 		for i := 0; i < val; i++ {
 			syscall.Write(1, []byte(fmt.Sprintf("extra stdout line %d\n", i)))
 		}
+	case "lastwords":
+		// val numbered lines on the REAL stderr (fd 2), then the process ends: its last words
+		for i := 0; i < val; i++ {
+			syscall.Write(2, []byte(fmt.Sprintf("last words %06d %s\n", i, strings.Repeat("w", 70))))
+		}
+		os.Exit(0)
 	case "noop":
 	default:
 		return fmt.Errorf("unknown kit command %q", key)
